@@ -866,6 +866,14 @@ func (p *proxyObject) assertCallable() (call func(FunctionCall) Value, ok bool) 
 	return nil, false
 }
 
+func (p *proxyObject) hasInstance(v Value) bool {
+	if p.call != nil {
+		// OrdinaryHasInstance: the "prototype" lookup and the prototype chain walk go through the traps
+		return hasInstance(p.val, v)
+	}
+	return p.baseObject.hasInstance(v)
+}
+
 func (p *proxyObject) vmCall(vm *vm, n int) {
 	vm.pushCtx()
 	vm.prg = nil
